@@ -65,73 +65,137 @@ func splitNames(s string, sep string) []string {
 // hasNames: the type decomposes a word into names (a joined string or a list)
 func (ft *flagType) hasNames() bool { return ft.Str != nil || ft.Names != nil }
 
-// decompose returns the names of a word. A type that prints them as one string joins them with a separator of
-// its own choice, which is learned from the type (separatorOf), never assumed.
+// decompose returns the names of a word. A type that prints them as one string joins them in a format of its own
+// choice (a separator, possibly a constant prefix and suffix around the list), which is learned from the type
+// (templateOf), never assumed.
 func (ft *flagType) decompose(w uint64) []string {
 	if ft.Str != nil {
-		sep, _ := separatorOf(ft)
-		return splitNames(ft.Str(w), sep)
+		ti, _ := templateOf(ft)
+		s := ft.Str(w)
+		if ti.substr {
+			return ti.find(s)
+		}
+		if ti.pre+ti.suf != "" && len(s) >= len(ti.pre)+len(ti.suf) && strings.HasPrefix(s, ti.pre) && strings.HasSuffix(s, ti.suf) {
+			s = s[len(ti.pre) : len(s)-len(ti.suf)]
+		}
+		return splitNames(s, ti.sep)
 	}
 	return ft.Names(w)
 }
 
+// sepInfo is the format a String-printing flag type joins its names in: pre + name sep name ... + suf.
 type sepInfo struct {
-	sep      string
-	problems []vf.Finding
+	pre, sep, suf string
+	substr        bool     // no such format fits the two-bit words: names are looked up as substrings instead
+	singles       []string // substr: what the named single bits print, longest first
+	problems      []vf.Finding
+}
+
+// find returns the single-bit texts that occur in s (longest first, each occurrence consumed, so that a name that
+// is part of a longer one is not found inside it).
+func (si *sepInfo) find(s string) []string {
+	var out []string
+	for _, n := range si.singles {
+		if i := strings.Index(s, n); i >= 0 {
+			out = append(out, n)
+			s = s[:i] + "\x00" + s[i+len(n):]
+		}
+	}
+	return out
 }
 
 var sepCache = map[string]*sepInfo{}
 
-// separatorOf learns the separator of a String-printing flag type from its two-bit words: for bits a, b that
-// print something of their own, String(a|b) must be String(a)+sep+String(b) or String(b)+sep+String(a). The
-// separator most two-bit words agree on is the type's (shorter first on a tie); a type whose two-bit words yield no
-// separator at all is reported.
-func separatorOf(ft *flagType) (string, []vf.Finding) {
+// templateOf learns the format of a String-printing flag type from its one-bit and two-bit words. The property
+// fixes no format; what the check needs is to read the names back. Candidates: a prefix and a suffix that all
+// one-bit words share (none, or any leading / trailing part of what they have in common); with name(x) the one-bit
+// word of x without them, a two-bit word fits a candidate if it is pre + name(a) + sep + name(b) + suf (either
+// order) for some sep. The candidate and separator most two-bit words agree on are the type's (on a tie the
+// shorter prefix+suffix, then the shorter separator). A type whose two-bit words fit no such format at all is read
+// by looking for the one-bit words as substrings.
+func templateOf(ft *flagType) (*sepInfo, []vf.Finding) {
 	if si, ok := sepCache[ft.Name]; ok {
-		return si.sep, si.problems
+		return si, si.problems
 	}
 	si := &sepInfo{}
 	sepCache[ft.Name] = si
 	zero := ft.Str(0)
 	single := map[int]string{}
+	lcp, lcs, shortest := "", "", -1
 	for b := 0; b < ft.Width; b++ {
-		if n := ft.Str(1 << uint(b)); n != "" && n != zero {
-			single[b] = n
+		n := ft.Str(1 << uint(b))
+		if n == "" || n == zero {
+			continue
+		}
+		single[b] = n
+		if shortest < 0 {
+			lcp, lcs, shortest = n, n, len(n)
+			continue
+		}
+		if len(n) < shortest {
+			shortest = len(n)
+		}
+		for !strings.HasPrefix(n, lcp) {
+			lcp = lcp[:len(lcp)-1]
+		}
+		for !strings.HasSuffix(n, lcs) {
+			lcs = lcs[1:]
 		}
 	}
-	votes := map[string]int{}
-	pairs := 0
+	two := map[[2]int]string{}
 	for a := 0; a < ft.Width; a++ {
 		for b := a + 1; b < ft.Width; b++ {
-			na, nb := single[a], single[b]
-			if na == "" || nb == "" {
-				continue
+			if single[a] != "" && single[b] != "" {
+				two[[2]int{a, b}] = ft.Str(1<<uint(a) | 1<<uint(b))
 			}
-			pairs++
-			two := ft.Str(1<<uint(a) | 1<<uint(b))
-			for _, o := range [][2]string{{na, nb}, {nb, na}} {
-				if len(two) >= len(na)+len(nb) && strings.HasPrefix(two, o[0]) && strings.HasSuffix(two, o[1]) {
-					votes[two[len(o[0]):len(two)-len(o[1])]]++
-					break
+		}
+	}
+	best, bestWrap := -1, 0
+	for i := 0; i <= len(lcp); i++ {
+		for j := 0; j <= len(lcs) && i+j < shortest; j++ {
+			pre, suf := lcp[:i], lcs[len(lcs)-j:]
+			votes := map[string]int{}
+			for ab, t := range two {
+				na, nb := single[ab[0]], single[ab[1]]
+				na, nb = na[i:len(na)-j], nb[i:len(nb)-j]
+				if len(t) < i+j+len(na)+len(nb) || !strings.HasPrefix(t, pre) || !strings.HasSuffix(t, suf) {
+					continue
+				}
+				in := t[i : len(t)-j]
+				for _, o := range [][2]string{{na, nb}, {nb, na}} {
+					if strings.HasPrefix(in, o[0]) && strings.HasSuffix(in, o[1]) {
+						votes[in[len(o[0]):len(in)-len(o[1])]]++
+						break
+					}
+				}
+			}
+			for sep, n := range votes {
+				better := n > best || n == best && (i+j < bestWrap || i+j == bestWrap && (len(sep) < len(si.sep) || len(sep) == len(si.sep) && sep < si.sep))
+				if better {
+					best, bestWrap = n, i+j
+					si.pre, si.sep, si.suf = pre, sep, suf
 				}
 			}
 		}
 	}
-	best := -1
-	for sep, n := range votes {
-		if n > best || n == best && (len(sep) < len(si.sep) || len(sep) == len(si.sep) && sep < si.sep) {
-			best, si.sep = n, sep
-		}
-	}
 	switch {
-	case pairs == 0:
+	case len(two) == 0:
 		// fewer than two named bits: nothing to split
 	case best < 0:
-		si.problems = append(si.problems, vf.F(ft.Name, "two-bit-words-not-two-names-and-a-separator", "no word of two named bits prints as the names of its bits around a separator (%d pairs tried)", pairs))
+		si.substr = true
+		for _, n := range single {
+			si.singles = append(si.singles, n)
+		}
+		sort.Slice(si.singles, func(i, j int) bool {
+			if len(si.singles[i]) != len(si.singles[j]) {
+				return len(si.singles[i]) > len(si.singles[j])
+			}
+			return si.singles[i] < si.singles[j]
+		})
 	case si.sep == "":
 		si.problems = append(si.problems, vf.F(ft.Name, "names-joined-without-separator", "words of two named bits print the two names with nothing between them: the decomposition cannot be read back"))
 	}
-	return si.sep, si.problems
+	return si, si.problems
 }
 
 var flagTypes = []flagType{
@@ -221,7 +285,7 @@ func bitNames(ft *flagType) (map[int]string, []string, []vf.Finding) {
 func bitNamesUncached(ft *flagType) (names map[int]string, empty []string, problems []vf.Finding) {
 	names = map[int]string{}
 	if ft.Str != nil {
-		_, problems = separatorOf(ft)
+		_, problems = templateOf(ft)
 		problems = append([]vf.Finding{}, problems...)
 	}
 	empty = ft.decompose(0)
@@ -905,8 +969,14 @@ func checkConst(c constCase) []vf.Finding {
 		} else if e == nil {
 			fs = append(fs, vf.F("NT_STATUS.Error", "non-success-status-without-error", "%s = %#08x -> nil", c.Ident, c.Value))
 		} else {
+			// the code in any of its usual renderings: hexadecimal (bare or zero-padded), unsigned decimal, or the
+			// signed 32-bit decimal Windows tools print
 			txt := strings.ToLower(e.Error())
-			if !strings.Contains(txt, fmt.Sprintf("%x", c.Value)) && !strings.Contains(txt, fmt.Sprintf("%d", c.Value)) {
+			mentioned := false
+			for _, r := range renderings(c.Value, 32) {
+				mentioned = mentioned || strings.Contains(txt, r)
+			}
+			if !mentioned {
 				fs = append(fs, vf.F("NT_STATUS.Error", "error-text-lacks-numeric-code", "%s = %#08x -> %q", c.Ident, c.Value, e.Error()))
 			}
 		}
@@ -1143,5 +1213,221 @@ func TestLabelsBelongToTheirConstants(t *testing.T) {
 		lf, _ := labelFamilyOf(c.Family)
 		_, ok := lf.label(c.Value)
 		return ok && size[c.Family] >= 2
+	})
+}
+
+// ---- every declared flag has a name -----------------------------------------------------------------------------
+//
+// The decomposition oracle learns name(b) from the code under test, so a flag that lost its row in the name table
+// simply counts as an unnamed bit. The property says the decomposition yields the named bits that are set; which
+// bits are named is declared by the source: every exported single-bit constant of a flag family that decomposes
+// into names is a named flag and must show up, under a name of its own (not empty, not what the zero word prints),
+// in the decomposition of its own bit. Constants the source itself marks as reserved (RESERVED in the identifier)
+// may be left without a name.
+
+type flagConstCase struct {
+	Type  string `json:"type"`
+	Ident string `json:"ident"`
+	Value uint64 `json:"value"`
+}
+
+func flagConsts(ft *flagType) ([]declConst, error) {
+	return constsOf(ft.Dir, ft.Type, ft.Prefix, ft.Name[strings.LastIndex(ft.Name, ".")+1:])
+}
+
+func singleBit(ft *flagType, v uint64) bool {
+	return bits.OnesCount64(v) == 1 && bits.TrailingZeros64(v) < ft.Width
+}
+
+func checkFlagConstNamed(c flagConstCase) []vf.Finding {
+	ft := typeByName(c.Type)
+	names, empty, _ := bitNames(ft)
+	b := bits.TrailingZeros64(c.Value)
+	if n, ok := names[b]; ok && strings.TrimSpace(n) != "" {
+		return nil
+	}
+	return []vf.Finding{vf.F(c.Type+"."+c.Ident, "declared-flag-without-name", "%s = %#x is a declared flag, but the decomposition of the word %#x is %v (the zero word gives %v): the bit is not reported when set", c.Ident, c.Value, c.Value, ft.decompose(c.Value), empty)}
+}
+
+func TestDeclaredFlagsNamed(t *testing.T) {
+	s := vf.Begin(t, P, "declared-flags-named")
+	s.SetExhaustive()
+	vf.Enum(s, func(yield func(flagConstCase)) {
+		for i := range flagTypes {
+			ft := &flagTypes[i]
+			if !ft.hasNames() {
+				continue
+			}
+			decl, err := flagConsts(ft)
+			if err != nil {
+				t.Fatalf("INFRA: %v", err)
+			}
+			n := 0
+			for _, d := range decl {
+				if singleBit(ft, d.Value) && !strings.Contains(strings.ToUpper(d.Ident), "RESERVED") {
+					n++
+					yield(flagConstCase{ft.Name, d.Ident, d.Value})
+				}
+			}
+			s.Note("%s: %d exported single-bit constants not marked RESERVED", ft.Name, n)
+		}
+	}, checkFlagConstNamed, nil)
+}
+
+// ---- a predicate tests its own flag ------------------------------------------------------------------------------
+//
+// checkPredicates establishes that a predicate depends on one bit only, whichever bit that is. Which bit is "its
+// own" is said by its name: IsOplock belongs to FLAGS_OPLOCK / "OPLOCK". Names are compared as in
+// labels-own-constant (squashed forms, longest common substring), and as there only unambiguous evidence counts:
+//   - two predicates are swapped: each is strictly closer to the flag the other one tests than to the one it tests
+//     itself;
+//   - a predicate tests another flag while its own has no predicate: it is strictly closer to a declared flag F
+//     that no predicate tests than to the flag it tests, no other predicate is closer to F than it is, and the match
+//     with F is substantial (four characters, or the whole of either name).
+// A predicate under an unrelated name (SupportsChallengeResponseAuth for NEGOTIATE_ENCRYPT_PASSWORDS) meets neither.
+
+type predCase struct {
+	Type string `json:"type"`
+	Pred string `json:"predicate"`
+}
+
+type predInfo struct {
+	bit   map[string]int    // predicate -> the one bit it flips on (absent: not a single-bit test, judged elsewhere)
+	short map[string]string // predicate -> squashed name without its verb
+	flag  map[int][]string  // bit -> squashed names of the flag: its constants' identifiers (shared prefix removed), its label
+	ident map[int]string    // bit -> an identifier, for messages
+	users map[int][]string  // bit -> predicates testing it
+	order []string          // predicates, sorted
+}
+
+var predInfoCache = map[string]*predInfo{}
+
+var predVerb = regexp.MustCompile(`^(Is|Supports|Has|Can)([A-Z0-9])`)
+
+func predInfoOf(ft *flagType) (*predInfo, error) {
+	if pi, ok := predInfoCache[ft.Name]; ok {
+		return pi, nil
+	}
+	decl, err := flagConsts(ft)
+	if err != nil {
+		return nil, err
+	}
+	pi := &predInfo{bit: map[string]int{}, short: map[string]string{}, flag: map[int][]string{}, ident: map[int]string{}, users: map[int][]string{}}
+	var single []declConst
+	for _, d := range decl {
+		if singleBit(ft, d.Value) {
+			single = append(single, d)
+		}
+	}
+	lf := newLabelFamily(ft.Name, single, nil)
+	for _, d := range single {
+		b := bits.TrailingZeros64(d.Value)
+		pi.flag[b] = append(pi.flag[b], lf.short[d.Ident])
+		if pi.ident[b] == "" {
+			pi.ident[b] = d.Ident
+		}
+	}
+	if ft.hasNames() {
+		names, _, _ := bitNames(ft)
+		for b, n := range names {
+			if len(pi.flag[b]) > 0 && squash(n) != "" {
+				pi.flag[b] = append(pi.flag[b], squash(n))
+			}
+		}
+	}
+	pb := predBits(ft)
+	for _, p := range predicateNames(ft) {
+		pi.order = append(pi.order, p)
+		pi.short[p] = squash(predVerb.ReplaceAllString(p, "$2"))
+		if dep := pb[p]; len(dep) == 1 {
+			pi.bit[p] = dep[0]
+			pi.users[dep[0]] = append(pi.users[dep[0]], p)
+		}
+	}
+	sort.Strings(pi.order)
+	predInfoCache[ft.Name] = pi
+	return pi, nil
+}
+
+// closeness of predicate p to the flag of bit b, and the length of the shortest flag name that reaches it
+func (pi *predInfo) closeness(p string, b int) (best, nameLen int) {
+	for _, n := range pi.flag[b] {
+		if c := lcsLen(pi.short[p], n); c > best || c == best && c > 0 && len(n) < nameLen {
+			best, nameLen = c, len(n)
+		}
+	}
+	return
+}
+
+func checkPredicateOwnBit(c predCase) []vf.Finding {
+	ft := typeByName(c.Type)
+	pi, err := predInfoOf(ft)
+	if err != nil {
+		return []vf.Finding{vf.F("harness", "cannot-parse-source", "%v", err)}
+	}
+	bp, ok := pi.bit[c.Pred]
+	if !ok || len(pi.flag[bp]) == 0 {
+		return nil // not a single-bit test (reported by the word checks), or it tests a bit no constant declares
+	}
+	own, _ := pi.closeness(c.Pred, bp)
+	// swapped with another predicate
+	for _, q := range pi.order {
+		bq, ok := pi.bit[q]
+		if !ok || q == c.Pred || bq == bp || len(pi.flag[bq]) == 0 {
+			continue
+		}
+		there, _ := pi.closeness(c.Pred, bq)
+		qOwn, _ := pi.closeness(q, bq)
+		qHere, _ := pi.closeness(q, bp)
+		if there > own && qHere > qOwn {
+			return []vf.Finding{vf.F(c.Type+"."+c.Pred, "predicates-swapped", "%s tests bit %#x (%s) and %s tests bit %#x (%s), but %s matches %s better (%d characters in common against %d) and %s matches %s better (%d against %d)",
+				c.Pred, uint64(1)<<uint(bp), pi.ident[bp], q, uint64(1)<<uint(bq), pi.ident[bq], c.Pred, pi.ident[bq], there, own, q, pi.ident[bp], qHere, qOwn)}
+		}
+	}
+	// its own flag is left without a predicate
+	var ks []int
+	for k := range pi.flag {
+		ks = append(ks, k)
+	}
+	sort.Ints(ks)
+	for _, k := range ks {
+		if k == bp || len(pi.users[k]) > 0 {
+			continue
+		}
+		there, nameLen := pi.closeness(c.Pred, k)
+		if there <= own || !(there >= 4 || there == len(pi.short[c.Pred]) || there == nameLen) {
+			continue
+		}
+		rival := false
+		for _, q := range pi.order {
+			if qc, _ := pi.closeness(q, k); q != c.Pred && qc > there {
+				rival = true
+			}
+		}
+		if !rival {
+			return []vf.Finding{vf.F(c.Type+"."+c.Pred, "predicate-tests-another-flags-bit", "%s tests bit %#x (%s; %d characters in common) although it is named after %s = %#x (%d characters in common), a declared flag that no predicate tests (predicates on bit %#x: %v)",
+				c.Pred, uint64(1)<<uint(bp), pi.ident[bp], own, pi.ident[k], uint64(1)<<uint(k), there, uint64(1)<<uint(bp), pi.users[bp])}
+		}
+	}
+	return nil
+}
+
+func TestPredicatesOwnBit(t *testing.T) {
+	s := vf.Begin(t, P, "predicates-own-bit")
+	s.SetExhaustive()
+	vf.Enum(s, func(yield func(predCase)) {
+		for i := range flagTypes {
+			ft := &flagTypes[i]
+			for _, p := range predicateNames(ft) {
+				yield(predCase{ft.Name, p})
+			}
+		}
+	}, checkPredicateOwnBit, func(c predCase) bool {
+		pi, err := predInfoOf(typeByName(c.Type))
+		if err != nil {
+			return false
+		}
+		b, ok := pi.bit[c.Pred]
+		return ok && len(pi.flag[b]) > 0 && len(pi.flag) >= 2
 	})
 }
